@@ -263,6 +263,7 @@ struct Req {
 }
 
 #[derive(Clone, Debug)]
+#[allow(dead_code)]
 enum MItem {
     Resp { id: u16, marker: [u8; 4], target: u8, bytes: Vec<u8> },
     Unknown { marker: [u8; 4] },
@@ -290,8 +291,8 @@ pub struct Sys {
     outbound: StreamReceiver,
     reqs: Vec<Req>,
     mq: VecDeque<MItem>,
-    /// marker -> what it was, for scenes in keys
-    log: Vec<([u8; 4], String)>,
+    /// marker -> the request it was addressed to (None = unknown id), for scenes in keys
+    log: Vec<([u8; 4], Option<usize>)>,
     closed: bool,
     err_used: bool,
     end_used: bool,
@@ -473,6 +474,18 @@ impl Sys {
                     if let Some(l) = l.as_deref_mut() {
                         l.outcome(&class);
                     }
+                    // timed-out / cancelled / failed requests are removed: only requests the
+                    // reference still routes to (incl. removals not yet seen by a poll) occupy slots
+                    let occupying = (0..i).filter(|j| self.live(*j)).count();
+                    if class == "mux:send-refused:busy" && occupying < self.cfg.max_active as usize {
+                        return Err(StepErr::Finding(Finding {
+                            key: "stream-removed-request-still-occupies-slot".into(),
+                            what: format!(
+                                "request {i} was refused with Busy although only {occupying} request(s) are pending (max_active_requests={})",
+                                self.cfg.max_active
+                            ),
+                        }));
+                    }
                     terminated = true;
                     rx = None;
                 }
@@ -494,8 +507,7 @@ impl Sys {
                 let marker = self.next_marker(i as u8, 0);
                 let q = req_question(i);
                 let bytes = wirekit::response(id, &[q.clone()], &q.name, marker);
-                let scene = if self.live(i) { "live-request" } else { "removed-request" };
-                self.log.push((marker, scene.to_string()));
+                self.log.push((marker, Some(i)));
                 if let Some(l) = l.as_deref_mut() {
                     l.outcome(if self.live(i) { "mux:deliver-for-live" } else { "mux:deliver-late" });
                 }
@@ -508,7 +520,7 @@ impl Sys {
             }
             Ev::Unknown => {
                 let marker = self.next_marker(0xee, 0);
-                self.log.push((marker, "unknown-id".to_string()));
+                self.log.push((marker, None));
                 self.push_inbound(Inb::Unknown { marker }, MItem::Unknown { marker });
             }
             Ev::GarbageShort => {
@@ -666,9 +678,13 @@ impl Sys {
             // soundness: only responses carrying this request's id
             for (id, m) in &got {
                 if *id != my_id {
-                    let scene = m
-                        .and_then(|m| self.log.iter().find(|e| e.0 == m).map(|e| e.1.clone()))
-                        .unwrap_or_else(|| "unscripted".into());
+                    // whose response was it (judged at the time the multiplexer read it)?
+                    let scene = match m.and_then(|m| self.log.iter().find(|e| e.0 == m).map(|e| e.1)) {
+                        None => "unscripted",
+                        Some(None) => "unknown-id",
+                        Some(Some(j)) if self.live(j) || exp_err[j] => "other-pending-request",
+                        Some(Some(_)) => "late-response",
+                    };
                     return Err(StepErr::Finding(Finding {
                         key: format!("stream-misrouted-response:{scene}"),
                         what: format!("request {i} (id {my_id:#06x}) received a response carrying id {id:#06x}"),
@@ -788,15 +804,24 @@ pub fn configs(thorough: bool) -> (Vec<Cfg>, usize) {
     if thorough {
         (
             vec![
-                Cfg { k: 3, max_active: 32, qmax: 3 },
+                Cfg { k: 3, max_active: 32, qmax: 4 },
                 Cfg { k: 3, max_active: 2, qmax: 3 },
-                Cfg { k: 2, max_active: 32, qmax: 4 },
-                Cfg { k: 2, max_active: 1, qmax: 3 },
+                Cfg { k: 3, max_active: 1, qmax: 3 },
+                Cfg { k: 2, max_active: 32, qmax: 5 },
+                Cfg { k: 2, max_active: 1, qmax: 4 },
             ],
-            10,
+            12,
         )
     } else {
-        (vec![Cfg { k: 2, max_active: 32, qmax: 3 }, Cfg { k: 2, max_active: 1, qmax: 2 }], 8)
+        (
+            vec![
+                Cfg { k: 2, max_active: 32, qmax: 3 },
+                Cfg { k: 2, max_active: 1, qmax: 3 },
+                Cfg { k: 3, max_active: 32, qmax: 3 },
+                Cfg { k: 3, max_active: 2, qmax: 2 },
+            ],
+            9,
+        )
     }
 }
 
